@@ -131,6 +131,53 @@ class LetIn(Expr):
         return LetIn(m.get(self.var, self.var), self.init.ren(m), self.body.ren(m))
 
 
+class ClosureApp(Expr):
+    """an immediately applied closure whose parameter shadows nothing or a rule variable: `(|v: i32| <body>)(<arg>)`"""
+
+    def __init__(self, var, body, arg):
+        self.var, self.body, self.arg = var, body, arg
+
+    def rs(self, sc=None):
+        inner = {k: t for k, t in sc.items() if k != self.var} if sc else sc
+        return '(|%s: i32| %s)(%s)' % (self.var, self.body.rs(inner), self.arg.rs(sc))
+
+    def ev(self, env):
+        env2 = dict(env)
+        env2[self.var] = self.arg.ev(env)
+        return self.body.ev(env2)
+
+    def vars(self):
+        return self.arg.vars() | (self.body.vars() - {self.var})
+
+    def ren(self, m):
+        return ClosureApp(m.get(self.var, self.var), self.body.ren(m), self.arg.ren(m))
+
+
+class MatchE(Expr):
+    """`match <scrut> { <k> => <e0>, <var> => <e1> }`: the second arm binds the scrutinee"""
+
+    def __init__(self, scrut, k, e0, var, e1):
+        self.scrut, self.k, self.e0, self.var, self.e1 = scrut, k, e0, var, e1
+
+    def rs(self, sc=None):
+        inner = {k: t for k, t in sc.items() if k != self.var} if sc else sc
+        return '(match %s { %di32 => %s, %s => %s })' % (self.scrut.rs(sc), self.k, self.e0.rs(sc), self.var, self.e1.rs(inner))
+
+    def ev(self, env):
+        v = self.scrut.ev(env)
+        if v == self.k:
+            return self.e0.ev(env)
+        env2 = dict(env)
+        env2[self.var] = v
+        return self.e1.ev(env2)
+
+    def vars(self):
+        return self.scrut.vars() | self.e0.vars() | (self.e1.vars() - {self.var})
+
+    def ren(self, m):
+        return MatchE(self.scrut.ren(m), self.k, self.e0.ren(m), m.get(self.var, self.var), self.e1.ren(m))
+
+
 class MinMax(Expr):
     def __init__(self, which, a, b):
         self.which, self.a, self.b = which, a, b
@@ -423,6 +470,36 @@ class Let:
 
     def uses(self):
         return self.e.vars()
+
+    def bind_into(self, out, env):
+        out[self.var] = self.e.ev(env)
+
+
+class LetTup(Let):
+    """let (a, b) = (e1, e2): one item binding several variables through a tuple pattern"""
+
+    def __init__(self, vars_, es):
+        self.vars_, self.es = list(vars_), list(es)
+        self.var, self.e = self.vars_[0], self.es[0]
+
+    def rs(self, sc=None):
+        return 'let (%s) = (%s)' % (', '.join(self.vars_), ', '.join(e.rs(sc) for e in self.es))
+
+    def ren(self, m):
+        return LetTup([m.get(v, v) for v in self.vars_], [e.ren(m) for e in self.es])
+
+    def binds(self):
+        return list(self.vars_)
+
+    def uses(self):
+        s = set()
+        for e in self.es:
+            s |= e.vars()
+        return s
+
+    def bind_into(self, out, env):
+        for v, e in zip(self.vars_, self.es):
+            out[v] = e.ev(env)
 
 
 class IfLet:
